@@ -653,8 +653,11 @@ func genClients(t *rapid.T) Case {
 	for i, n := 0, rapid.IntRange(1, 4).Draw(t, "nfilters"); i < n; i++ {
 		sp.Filters = append(sp.Filters, rapid.SampledFrom([]string{"NS/x0/", "NS/", "NS/+/", "$share/g1/NS/x0/", "$share/g1/NS/", "$share/g2/NS/x1/", "$share/g2/NS/+/"}).Draw(t, "filter"))
 	}
+	if rapid.IntRange(0, 3).Draw(t, "big") == 0 {
+		sp.Big = rapid.SampledFrom([]int{65520, 65526, 65528, 65530, 65532}).Draw(t, "bigsize")
+	}
 	d, _ := json.Marshal(sp)
-	return Case{Kind: "clients", Data: d, Note: fmt.Sprintf("%d concurrent well-formed clients, filters %v, %d publishes each", sp.Clients, sp.Filters, sp.Msgs), Benign: true}
+	return Case{Kind: "clients", Data: d, Note: fmt.Sprintf("%d concurrent well-formed clients, filters %v, %d publishes each, %d bytes through a shortcut", sp.Clients, sp.Filters, sp.Msgs, sp.Big), Benign: true}
 }
 
 func TestClientPort(t *testing.T)        { vkit.Check(t, genClient, execute); stop() }
